@@ -36,14 +36,16 @@ Definition bcast2 (a b : shape) : option shape := option_map (@rev nat) (bcast_r
 Definition bcast_all (l : list shape) : option shape :=
   fold_left (fun acc s => match acc with Some a => bcast2 a s | None => None end) l (Some []).
 
-(* tensor.expand(target): right aligned, every source dim equals the target dim or is 1 *)
-Fixpoint expandable_rev (s t : list nat) : bool :=
-  match s, t with
-  | [], _ => true
-  | _ :: _, [] => false
-  | x :: s', y :: t' => (Nat.eqb x y || Nat.eqb x 1) && expandable_rev s' t'
+(* tensor.expand(target): dims aligned from the right, every source dim equals the target dim or is 1 *)
+Fixpoint all2 {A B} (f : A -> B -> bool) (a : list A) (b : list B) : bool :=
+  match a, b with
+  | [], [] => true
+  | x :: a', y :: b' => f x y && all2 f a' b'
+  | _, _ => false
   end.
-Definition expandable (s t : shape) : bool := expandable_rev (rev s) (rev t).
+Definition expandable (s t : shape) : bool :=
+  Nat.leb (List.length s) (List.length t)
+  && all2 (fun d b => Nat.eqb d b || Nat.eqb d 1) s (skipn (List.length t - List.length s) t).
 
 (* ---------- views: shape + element map ---------- *)
 Record view := { vshape : shape; vidx : list nat -> list nat }.
